@@ -159,6 +159,14 @@ pub fn global(global: &mut FunctionMap) {
             (x, y) => Ok(Value::call("rem", [x, y])),
         }
     });
+    /// True for numbers in the same unit or in known units of the
+    /// same dimension (an unknown unit or a percentage can only be
+    /// compared to itself).
+    fn comparable(a: &Numeric, b: &Numeric) -> bool {
+        a.unit == b.unit
+            || known_dim_spec(a)
+                .is_some_and(|dim| Some(dim) == known_dim_spec(b))
+    }
     def_va!(global, clamp(number), |s| {
         let mut args = args_iter(s)?;
         let min = required_arg(args.next())??;
@@ -183,8 +191,8 @@ pub fn global(global: &mut FunctionMap) {
                 } else if min_d.is_some() && max_d.is_some() && min_d != max_d
                 {
                     Err(CallError::incompatible_values(min, max))
-                } else if known_dim_spec(&min) == known_dim_spec(&number)
-                    && known_dim_spec(&number) == known_dim_spec(&max)
+                } else if comparable(&min, &number)
+                    && comparable(&number, &max)
                 {
                     if number >= max {
                         number = max;
